@@ -340,7 +340,11 @@ impl Gen {
         if self.rng.pct(15) {
             quotes.truncate(1);
         }
-        let convs: Vec<String> = if self.rng.pct(10) { vec![] } else { CONVS.iter().map(|s| s.to_string()).collect() };
+        let mut convs: Vec<String> = if self.rng.pct(10) { vec![] } else { CONVS.iter().map(|s| s.to_string()).collect() };
+        if self.rng.pct(8) {
+            // unusual but accepted configuration: the base denomination is also listed as convertible
+            convs.push(BASE.to_string());
+        }
         let (afr, afa) = if self.rng.pct(50) {
             (None, None)
         } else {
